@@ -30,6 +30,12 @@ OBLIGATIONS = [
     (P + "kernel_report_not_lost", "generated reactor tables (epoll, poll, select): every kernel report over IN/PRI/OUT/ERR/HUP that ends a wait for readability (writability) translates to an event with in|err (out|err); a bare hang-up is never the empty event"),
     (P + "registration_requests_armed_bits", "generated tables: registering reactor::in / out requests exactly the kernel's readable / writable bit"),
     (P + "kernel_report_dispatches", "composition: such a kernel report on an armed descriptor queues the armed handler and empties its slot, on each back-end"),
+    (P + "epoll_select_records", "generated shape of epoll_reactor::select: the requested interest set is stored in events_[fd] also when epoll_ctl failed"),
+    (P + "epoll_select_on_open_fd", "under the cache invariant the DEL/ADD/MOD decision on an open descriptor succeeds and the kernel holds exactly the requested set"),
+    (P + "epoll_cache_invariant", "for all histories of select / application close / number re-use after the cancel: cache = kernel's interest set on every open descriptor"),
+    (P + "epoll_reused_fd_is_registered", "close before the loop's DEL, cancel processed (DEL fails), number re-used, wait armed: it is registered with the kernel, without error"),
+    (P + "device_error_path_completes_once", "generated: dont_block posts once and returns false on error; all six async_* entry points are guarded by it; every branch after the guard posts xor arms exactly once"),
+    (P + "bad_descriptor_completes_exactly_once", "hence an async_* call on an unusable descriptor schedules its handler exactly once"),
     (P + "due_timer_queued", "run_one's expiry step queues every timer whose deadline <= now with success"),
     (P + "job_conservation", "pool: each posted job id is in exactly one of queue | held by a worker | ran | cancelled"),
     (P + "job_at_most_once", "pool: for all histories, a job runs at most once"),
@@ -82,6 +88,8 @@ def rand_prog(rng, idx, ns, nt, allow_arm):
             ops.append(f"pw:{rng.randrange(ns)}")
         elif r < 0.97 and ns and allow_arm:
             ops.append(f"{rng.choice(('ar', 'aw'))}:{rng.randrange(ns)}:{lower}")
+        elif r < 0.985:
+            ops.append(f"{rng.choice(('xc', 'xr', 'xw'))}:x:{lower}")
         else:
             ops.append("post:0")
     return ops
@@ -89,7 +97,7 @@ def rand_prog(rng, idx, ns, nt, allow_arm):
 
 def gen_loop_case(rng, flavour):
     ns = rng.choice((1, 2, 2, 3))
-    np_ = rng.choice((0, 0, 1, 1, 2)) if flavour != "periodic" else 0
+    np_ = rng.choice((0, 0, 1, 1, 2)) if flavour not in ("periodic", "reuse") else 0
     nt = rng.choice((1, 2, 2))
     ndev = ns + 2 * np_
     # device f: sockets take both directions, a pipe's read end only `ar`, its write end only `aw`
@@ -115,6 +123,9 @@ def gen_loop_case(rng, flavour):
     script = []
     T = 0
     armed = {}          # (f, dir) -> possibly armed (generator's own conservative view: NoDoubleArm)
+    closed = set()      # sockets the script itself has closed (and not re-opened): targets for device-wrapper ops
+    started = [False]
+    reusable = set()    # closed after start(): their number can be handed out again deterministically
     def ops_batch(k):
         nonlocal T
         for _ in range(k):
@@ -145,11 +156,29 @@ def gen_loop_case(rng, flavour):
                 armed[(f, d)] = True
             elif r < 0.71:
                 script.append(f"{rng.choice(('ar', 'aw'))}:x:{p}")
-            elif r < 0.78:
+            elif r < 0.76:
                 script.append(f"ca:{rng.randrange(ndev)}")
+            elif r < 0.79:
+                # device wrappers on an unusable descriptor: never opened, or a socket the script closed
+                tgt = rng.choice(["x"] + sorted(str(f) for f in closed))
+                op = rng.choice(("xc", "xa", "xr", "xw"))
+                if op == "xa":
+                    tgt = rng.choice(("x", "y"))
+                script.append(f"{op}:{tgt}:{p}")
             elif r < 0.83:
-                # close: for a pipe this is "the writer goes away" / "the reader goes away"
-                script.append(f"cl:{rng.randrange(ndev)}")
+                # close: for a pipe this is "the writer goes away" / "the reader goes away"; sometimes the application
+                # closes the raw descriptor itself and then cancels
+                f = rng.randrange(ndev)
+                script.append(f"{'rx' if rng.random() < 0.3 else 'cl'}:{f}")
+                armed[(f, "ar")] = armed[(f, "aw")] = False
+                if f < ns:
+                    closed.add(f)
+                    if started[0]:
+                        reusable.add(f)
+            elif r < 0.85 and reusable and flavour != "stop":
+                f = rng.choice(sorted(reusable))
+                script.append(f"ro:{f}")
+                reusable.discard(f); closed.discard(f)
             elif r < 0.93:
                 script.append(f"pw:{rng.choice(readable)}")
             elif r < 0.96:
@@ -159,6 +188,29 @@ def gen_loop_case(rng, flavour):
     if rng.random() < 0.4:
         ops_batch(rng.randrange(1, 4))      # before run(): reactor_ not created yet -> functors are queued
     script.append("start")
+    started[0] = True
+    if flavour == "reuse":
+        # descriptor-number re-use: a wait is registered, the descriptor is closed before the loop's removal (from outside
+        # while the loop polls, or raw close + cancel), a new descriptor gets the same number, a wait is armed on it
+        f = rng.randrange(ns)
+        script.append(f"{rng.choice(('ar', 'aw'))}:{f}:0")
+        script.append("step")
+        d2 = rng.choice(("ar", "aw"))
+        variant = rng.choice(("outside", "outside-raw", "handler-raw", "handler"))
+        if variant in ("outside", "outside-raw"):
+            script.append(f"{'cl' if variant == 'outside' else 'rx'}:{f}")
+            if rng.random() < 0.5:
+                script.append("step")
+            script.append(f"ro:{f}")
+            script.append(f"{d2}:{f}:{rng.randrange(nprog)}")
+            if d2 == "ar" or rng.random() < 0.3:
+                script.append(f"pw:{f}")
+        else:
+            body = [f"{'rx' if variant == 'handler-raw' else 'cl'}:{f}", f"ro:{f}", f"{d2}:{f}:0"] + ([f"pw:{f}"] if d2 == "ar" else [])
+            progs.append(body)      # not counted in nprog: only this one post uses it
+            script.append(f"post:{len(progs) - 1}")
+            script.append("step")
+        script += [f"step:{f}", f"step:{f}"]
     if flavour == "periodic":
         script.append(f"tm:0:{rng.choice((0, 1, 5))}:{nprog - 1}")
     for _ in range(rng.randrange(2, 9)):
@@ -337,10 +389,10 @@ def main():
         corpus = []
     else:
         rng = c.rng
-        nloop = 3000 if thorough else 312
+        nloop = 3500 if thorough else 364
         cases = list(corpus)
         for k in range(nloop):
-            fl = ("final", "final", "free", "free", "stop", "periodic")[k % 6]
+            fl = ("final", "final", "free", "free", "stop", "periodic", "reuse")[k % 7]
             cases.append(gen_loop_case(rng, fl))
         for k in range(400 if thorough else 60):
             cases.append(gen_pool_case(rng, with_stop=False))
